@@ -249,7 +249,7 @@ def build(reg, src):
 
     # ---------------- recover_memory
     def rm_inv(s):
-        return W(s.st, s.self, extra_cnt=aside_cnt(s.writing))
+        return W(s.st, s.self, extra_cnt=aside_cnt(s.writing if s.has('writing') else NONE))
 
     def rm_frame(s, *a, extra=None):
         a0, a1 = A(s.old, s.self), A(s.st, s.self)
@@ -271,7 +271,7 @@ def build(reg, src):
     reg.fn(F + 'recover_memory', params=dict(claim=Int), setup=setup, returns=Bool, raises=[],
            requires=[held, lambda s: W(s.st, s.self), lambda s: s.claim <= VInt(A(s.st, s.self)['max'])],
            modifies=lambda eng, st, s: havoc_table(st, s.self),
-           loops={0: loop(invariant=[rm_inv, lambda s: rm_frame(s, extra=aside_cnt(s.writing)), lambda s: VBool(A(s.st, s.self)['held']), fs_same,
+           loops={0: loop(invariant=[rm_inv, lambda s: rm_frame(s, extra=aside_cnt(s.writing if s.has('writing') else NONE)), lambda s: VBool(A(s.st, s.self)['held']), fs_same,
                                      lambda s: VBool(A(s.st, s.self)['max'] == A(s.old, s.self)['max'])],
                           variant=lambda s: VInt(A(s.st, s.self)['hsize']),
                           havoc=dict(writing=lambda hint: VAside(fresh(Bool, 'aside_none'), VArr(z3.Const(fresh_name('aside'), fc.IntArr))),
